@@ -1,6 +1,389 @@
-import NavisModel.Model.Nblast
+import NavisModel.Proofs.NblastLemmas
 import NavisModel.Gen.Smat
+/-!
+# C06 — NBLAST scores equal the published definition
+
+Property theorems only; helper lemmas live in `Proofs/NblastLemmas.lean`.  The model
+(`Model/Nblast.lean`) follows `navis.nbl.smat` / `nblast_funcs` / `Dotprops.dist_dots` line by line;
+`Gen/Smat.lean` is regenerated from the navis source on every run (both score-matrix CSVs, the
+`side=` expression and the `- 1` of `Digitizer.__call__`, the default `clip`, `ALLOWED_SCORES`).
+
+Numbers are exact rationals; the two square roots of the algorithm (distance, `sqrt(alpha)` scaling) are
+only ever compared with table boundaries and are represented by their radicand (`Val.sqrt`).
+"Exactly 1" etc. therefore hold exactly here and up to IEEE rounding on the real code.
+-/
 namespace Navis.Props.C06
 open Navis.Nblast
-theorem stub : sideOfRight true = Side.left := rfl
+
+/-! ## 1. What the translator extracted from the source is what the model assumes -/
+
+/-- The `side=` expression found in `Digitizer.__call__` is the one the model uses
+(`"left" if self.right else "right"`): swapping the sides in the source breaks this theorem. -/
+theorem source_side_matches_model : Gen.Smat.sideOfRight = sideOfRight := by
+  funext r; cases r <;> rfl
+
+/-- The source subtracts exactly 1 from the `searchsorted` result. -/
+theorem source_offset_matches_model : Gen.Smat.offset = 1 := rfl
+
+/-- `from_strings` constructs the digitizer with the default `clip = (True, True)`. -/
+theorem source_clip_matches_model : Gen.Smat.defaultClip = (true, true) := rfl
+
+/-- `ALLOWED_SCORES` are exactly the modes of the model. -/
+theorem source_modes_match_model : Gen.Smat.allowedScores = Mode.all.map Mode.name := by decide
+
+/-- Hence `Digitizer.__call__` *as written in the source* is the model's `digitize`. -/
+theorem digitize_source_eq_model : digitizeWith Gen.Smat.sideOfRight Gen.Smat.offset = digitize := by
+  rw [source_side_matches_model, source_offset_matches_model]; rfl
+
+/-- Both shipped score matrices parse (labels abut, one closedness per axis, strictly increasing
+boundaries, cell matrix of the right shape). -/
+theorem default_tables_parse : Gen.Smat.fcwb.isSome = true ∧ Gen.Smat.fcwbAlpha.isSome = true := by
+  decide +kernel
+
+/-! ## 2. Binning -/
+
+/-- Every digitizer `Digitizer.from_strings` accepts is well formed: strictly increasing boundaries
+running from `-inf` to `+inf`, one bin per label, closedness of the first label. -/
+theorem from_strings_wellformed (ivs : List Interval) (d : Digitizer) (h : Digitizer.fromIntervals ivs = some d) :
+    d.WF ∧ d.nbins = ivs.length ∧ d.right = (ivs.head?.map (·.right)).getD false := by
+  obtain ⟨i0, l, hh, _, _, hwf, hr, _⟩ := fromIntervals_some ivs d h
+  exact ⟨hwf, fromIntervals_nbins ivs d h, by rw [hh]; simpa using hr⟩
+
+/-- **digitize_spec.** For a well-formed digitizer and a finite value (plain or a square root) the
+returned index is a bin `0 ≤ i < nbins` whose half-open interval contains the value: for `right = true`
+`lower < v ≤ upper`, otherwise `lower ≤ v < upper` (`gtB b` is `b < v`, `geB b` is `b ≤ v`). -/
+theorem digitize_spec (d : Digitizer) (hwf : d.WF) (v : Val) (hv : v.finite = true) :
+    ∃ (k : Nat) (lo hi : X), digitize d v = (k : Int) ∧ k < d.nbins ∧
+      d.boundaries[k]? = some lo ∧ d.boundaries[k + 1]? = some hi ∧
+      (if d.right then v.gtB lo = true ∧ v.gtB hi = false else v.geB lo = true ∧ v.geB hi = false) := by
+  obtain ⟨k, lo, hi, h1, h2, h3, h4, h5, h6⟩ := digitize_spec_aux d hwf v hv
+  refine ⟨k, lo, hi, h1, h2, h3, h4, ?_⟩
+  unfold scanPred at h5 h6
+  cases hr : d.right <;> simp [hr] at h5 h6 ⊢ <;> exact ⟨h5, h6⟩
+
+/-- The same for a plain number, in the usual notation. -/
+theorem digitize_spec_plain (d : Digitizer) (hwf : d.WF) (v : X) (hv : v.isFin = true) :
+    ∃ (k : Nat) (lo hi : X), digitize d (.x v) = (k : Int) ∧ k < d.nbins ∧
+      d.boundaries[k]? = some lo ∧ d.boundaries[k + 1]? = some hi ∧
+      (if d.right then X.lt lo v = true ∧ X.le v hi = true else X.le lo v = true ∧ X.lt v hi = true) := by
+  obtain ⟨k, lo, hi, h1, h2, h3, h4, h5⟩ := digitize_spec d hwf (.x v) hv
+  refine ⟨k, lo, hi, h1, h2, h3, h4, ?_⟩
+  cases hr : d.right <;> simp only [hr, Val.gtB, Val.geB, X.le] at h5 ⊢ <;> simpa using h5
+
+/-- **digitize_unique.** The bin is the only one with that property. -/
+theorem digitize_unique (d : Digitizer) (hwf : d.WF) (v : Val) (j : Nat) (lo hi : X)
+    (hlo : d.boundaries[j]? = some lo) (hhi : d.boundaries[j + 1]? = some hi)
+    (h : if d.right then v.gtB lo = true ∧ v.gtB hi = false else v.geB lo = true ∧ v.geB hi = false) :
+    digitize d v = (j : Int) := by
+  apply digitize_unique_aux d hwf v j lo hi hlo hhi <;> unfold scanPred <;> cases hr : d.right <;> simp [hr] at h ⊢
+  · exact h.1
+  · exact h.1
+  · exact h.2
+  · exact h.2
+
+/-- **The table's declared half-open intervals, with clipping.**  For a table built from interval
+labels, bin `i` is returned for the finite value `v` exactly when the checker `binOK` accepts it:
+`0 ≤ i < n`, `v` is above the declared lower bound of label `i` (strictly iff the labels are
+right-closed) unless `i` is the first bin, and below its declared upper bound unless `i` is the last
+bin — values beyond the table fall into the outer bins.  (`binOK` is what the driver evaluates on the
+bins navis returns.) -/
+theorem digitize_iff_declared_interval (ivs : List Interval) (d : Digitizer)
+    (h : Digitizer.fromIntervals ivs = some d) (v : X) (hv : v.isFin = true) (i : Int) :
+    binOK ivs i v = true ↔ digitize d (.x v) = i :=
+  binOK_iff_digitize ivs d h v hv i
+
+/-- Clipping, spelled out: anything up to the first label's upper bound goes to bin 0 … -/
+theorem digitize_clips_low (ivs : List Interval) (d : Digitizer) (h : Digitizer.fromIntervals ivs = some d)
+    (i0 : Interval) (h0 : ivs.head? = some i0) (v : X) (hv : v.isFin = true)
+    (hle : (if i0.right then X.le v i0.hi else X.lt v i0.hi) = true) : digitize d (.x v) = 0 := by
+  rw [← binOK_iff_digitize ivs d h v hv 0]
+  cases ivs with
+  | nil => simp at h0
+  | cons j0 rest =>
+    simp only [List.head?_cons, Option.some.injEq] at h0; subst h0
+    simp [binOK, hle]
+
+/-- … and anything above the last label's lower bound goes to the last bin. -/
+theorem digitize_clips_high (ivs : List Interval) (d : Digitizer) (h : Digitizer.fromIntervals ivs = some d)
+    (i0 l : Interval) (h0 : ivs.head? = some i0) (hl : ivs.getLast? = some l) (v : X) (hv : v.isFin = true)
+    (hge : (if i0.right then X.lt l.lo v else X.le l.lo v) = true) :
+    digitize d (.x v) = (ivs.length : Int) - 1 := by
+  rw [← binOK_iff_digitize ivs d h v hv]
+  cases ivs with
+  | nil => simp at h0
+  | cons j0 rest =>
+    simp only [List.head?_cons, Option.some.injEq] at h0; subst h0
+    rw [List.getLast?_eq_getElem?] at hl
+    have e : ((((j0 :: rest).length : Nat) : Int) - 1).toNat = (j0 :: rest).length - 1 := by simp
+    simp only [binOK, e, hl]
+    simp [hge]
+
+/-- A square root is binned like the number it denotes: `sqrt (r²)` goes where `r` goes (`r ≥ 0`). -/
+theorem digitize_sqrt_agrees (d : Digitizer) (r : Rat) (hr : 0 ≤ r) :
+    digitize d (.sqrt (r * r)) = digitize d (.x (.fin r)) :=
+  digitize_sqrt_eq d r hr
+
+/-- Binning is monotone: a larger radicand never lands in a lower bin. -/
+theorem digitize_mono_sqrt (d : Digitizer) (s s' : Rat) (h : s ≤ s') :
+    digitize d (.sqrt s) ≤ digitize d (.sqrt s') :=
+  digitize_mono_aux d _ _ (fun b hb => Val.gtB_sqrt_mono h b hb) (fun b hb => Val.geB_sqrt_mono h b hb)
+
+/-! ## 3. Scores -/
+
+/-- **NBLAST as implemented is the definition.**  Whenever the self hits can be computed, the matrix
+`navis.nblast(query, target, scores)` assembles through `NBlaster.append`, `single_query_target`
+(index bookkeeping, self-hit lookup, reverse query) and `multi_query_target` is entry for entry the
+index-free definition `defNblast`: entry `(i, j)` is `defScore` of query `i` against target `j`. -/
+theorem nblast_is_definition (fn : ScoreFn) (cfg : Cfg) (q t : List Dotprops) (mode : Mode) (qs ts : List Rat)
+    (hq : allSome (q.map fun n => selfHit fn cfg.useAlpha n.pts) = some qs)
+    (ht : allSome (t.map fun n => selfHit fn cfg.useAlpha n.pts) = some ts) :
+    nblast fn cfg q t mode = defNblast fn cfg q t mode :=
+  nblast_eq_def fn cfg q t mode qs ts hq ht
+
+/-- **labels_follow_input.** Columns carry the target ids in input order; rows carry the query ids in
+input order (twice, tagged `forward` / `reverse`, for `scores='both'`). -/
+theorem labels_follow_input (fn : ScoreFn) (cfg : Cfg) (q t : List Dotprops) (mode : Mode) (qs ts : List Rat)
+    (hq : allSome (q.map fun n => selfHit fn cfg.useAlpha n.pts) = some qs)
+    (ht : allSome (t.map fun n => selfHit fn cfg.useAlpha n.pts) = some ts)
+    (f : Frame) (h : nblast fn cfg q t mode = some f) :
+    f.cols = t.map (·.id) ∧
+    f.rows = (if mode = .both then (q.map fun n => [(n.id, "forward"), (n.id, "reverse")]).flatten
+              else q.map fun n => (n.id, "")) := by
+  rw [nblast_eq_def fn cfg q t mode qs ts hq ht] at h
+  unfold defNblast at h
+  cases hres : allSome (q.map fun qn => allSome (t.map fun tn => defScore fn cfg qn.pts tn.pts mode)) with
+  | none => rw [hres] at h; cases h
+  | some res =>
+    rw [hres] at h
+    simp only [Option.map_some, Option.some.injEq] at h
+    subst h
+    unfold mkFrame
+    split <;> simp [List.map_map, Function.comp_def]
+
+/-- Mode identities: `forward` is the forward score … -/
+theorem mode_forward (fn : ScoreFn) (cfg : Cfg) (q t : Cloud) (f : Rat) (hf : defForward fn cfg q t = some f) :
+    defScore fn cfg q t .forward = some (.one f) := by
+  unfold defScore; rw [hf]
+
+/-- … `mean` is `(forward + reverse) / 2` … -/
+theorem mode_mean (fn : ScoreFn) (cfg : Cfg) (q t : Cloud) (f r : Rat) (hf : defForward fn cfg q t = some f)
+    (hr : defForward fn cfg t q = some r) : defScore fn cfg q t .mean = some (.one ((f + r) / 2)) := by
+  unfold defScore; rw [hf, hr]
+
+/-- … `min` the smaller … -/
+theorem mode_min (fn : ScoreFn) (cfg : Cfg) (q t : Cloud) (f r : Rat) (hf : defForward fn cfg q t = some f)
+    (hr : defForward fn cfg t q = some r) :
+    defScore fn cfg q t .min = some (.one (if r < f then r else f)) := by
+  unfold defScore; rw [hf, hr]; rfl
+
+/-- … `max` the larger … -/
+theorem mode_max (fn : ScoreFn) (cfg : Cfg) (q t : Cloud) (f r : Rat) (hf : defForward fn cfg q t = some f)
+    (hr : defForward fn cfg t q = some r) :
+    defScore fn cfg q t .max = some (.one (if f < r then r else f)) := by
+  unfold defScore; rw [hf, hr]; rfl
+
+/-- … and `both` the pair, where the reverse score is the forward score of the target against the
+query (normalised by the *target's* self hit). -/
+theorem mode_both (fn : ScoreFn) (cfg : Cfg) (q t : Cloud) (f r : Rat) (hf : defForward fn cfg q t = some f)
+    (hr : defForward fn cfg t q = some r) : defScore fn cfg q t .both = some (.two f r) := by
+  unfold defScore; rw [hf, hr]
+
+/-- **self_score_one.** A cloud with pairwise distinct positions and unit tangents, scored against
+itself through the full computation (nearest-neighbour search, table lookups, sum, division by the
+self hit — the path `nblast(q, q)` takes), gets exactly 1, for every score function, with and without
+alpha, with and without a distance limit.  Guard: the self hit is defined and non-zero. -/
+theorem self_score_one (fn : ScoreFn) (cfg : Cfg) (c : Cloud) (hn : cfg.normalized = true)
+    (hnd : (c.map (·.p)).Nodup) (hunit : ∀ p ∈ c, p.v.dot p.v = 1) (sh : Rat)
+    (hsh : selfHit fn cfg.useAlpha c = some sh) (hne : sh ≠ 0) : defForward fn cfg c c = some 1 :=
+  defForward_self_norm fn cfg c hn hnd hunit sh hsh hne
+
+/-- Unnormalised, the self score is the self hit `calc_self_hit` computes. -/
+theorem self_score_raw (fn : ScoreFn) (cfg : Cfg) (c : Cloud) (hn : cfg.normalized = false)
+    (hnd : (c.map (·.p)).Nodup) (hunit : ∀ p ∈ c, p.v.dot p.v = 1) (sh : Rat)
+    (hsh : selfHit fn cfg.useAlpha c = some sh) : defForward fn cfg c c = some sh :=
+  defForward_self_raw fn cfg c hn hnd hunit sh hsh
+
+/-- The short-cut `q_idx == t_idx` of `single_query_target` returns the literal 1 (normalised) in every mode. -/
+theorem self_score_shortcut (fn : ScoreFn) (cfg : Cfg) (nb : Blaster) (i : Nat) (mode : Mode)
+    (hn : cfg.normalized = true) : singleQueryTarget fn cfg nb i i mode = some (.one 1) := by
+  rw [sqt_diag]; simp [hn]
+
+/-- **allbyall_eq_query_self.** `nblast_allbyall(x)` (every neuron appended once, diagonal by the
+short-cut) is the same labelled matrix as `nblast(x, x)` (every neuron appended twice, diagonal
+computed), for clouds with distinct positions and unit tangents and non-zero self hits. -/
+theorem allbyall_eq_query_self (fn : ScoreFn) (cfg : Cfg) (x : List Dotprops) (hs : List Rat)
+    (hh : allSome (x.map fun n => selfHit fn cfg.useAlpha n.pts) = some hs)
+    (hnd : ∀ n ∈ x, (n.pts.map (·.p)).Nodup) (hunit : ∀ n ∈ x, ∀ p ∈ n.pts, p.v.dot p.v = 1)
+    (hne : cfg.normalized = true → ∀ sh ∈ hs, sh ≠ 0) :
+    nblastAllByAll fn cfg x = nblast fn cfg x x .forward :=
+  allbyall_eq_nblast_self fn cfg x hs hh hnd hunit hne
+
+/-! ## 4. `normalised ≤ 1` for the shipped tables (facts decided over the *generated* tables) -/
+
+/-- The self-match cell of `smat_fcwb.csv`: row of distance 0, column of dot product 1. -/
+def fcwbSelfCell : Rat := cellD Gen.Smat.fcwbCells 0 9
+
+/-- **fcwb_max_cell.** No cell of `smat_fcwb.csv` exceeds the self-match cell, and it is positive. -/
+theorem fcwb_max_cell : (∀ row ∈ Gen.Smat.fcwbCells, ∀ c ∈ row, c ≤ fcwbSelfCell) ∧ 0 < fcwbSelfCell := by
+  decide +kernel
+
+/-- `table(0, 1.0)` of the default table is that cell. -/
+theorem fcwb_self_lookup :
+    Gen.Smat.fcwb.bind (fun tb => tb.call (.sqrt 0) (.x (.fin 1))) = some fcwbSelfCell := by
+  decide +kernel
+
+/-- **normalised_le_one.** With the default table and without alpha, the normalised forward score of
+*any* query cloud against *any* target cloud, with or without a distance limit, is at most 1. -/
+theorem normalised_le_one (tb : Lookup2d) (htb : Gen.Smat.fcwb = some tb) (cfg : Cfg)
+    (hua : cfg.useAlpha = false) (hn : cfg.normalized = true) (q t : Cloud) (s : Rat)
+    (h : defForward tb.call cfg q t = some s) : s ≤ 1 := by
+  have hc := (fromDataframe_cells _ _ _ tb htb).1
+  have hself := fcwb_self_lookup
+  rw [htb] at hself
+  exact defForward_le_one_of_max tb fcwbSelfCell (by rw [hc]; exact fcwb_max_cell.1) hself fcwb_max_cell.2
+    cfg hua hn q t s h
+
+/-- … in every score mode (`mean`, `min`, `max`, both components of `both`) … -/
+theorem normalised_le_one_modes (tb : Lookup2d) (htb : Gen.Smat.fcwb = some tb) (cfg : Cfg)
+    (hua : cfg.useAlpha = false) (hn : cfg.normalized = true) (q t : Cloud) (mode : Mode) (sc : Score)
+    (h : defScore tb.call cfg q t mode = some sc) : sc.fwd ≤ 1 ∧ sc.rev ≤ 1 :=
+  defScore_le_one tb.call cfg q t (normalised_le_one tb htb cfg hua hn q t) (normalised_le_one tb htb cfg hua hn t q) mode sc h
+
+/-- … hence every entry of the matrix `navis.nblast` returns. -/
+theorem normalised_le_one_matrix (tb : Lookup2d) (htb : Gen.Smat.fcwb = some tb) (cfg : Cfg)
+    (hua : cfg.useAlpha = false) (hn : cfg.normalized = true) (q t : List Dotprops) (mode : Mode) (f : Frame)
+    (h : nblast tb.call cfg q t mode = some f) : ∀ row ∈ f.vals, ∀ v ∈ row, v ≤ 1 := by
+  intro row hrow v hv
+  have hd : defNblast tb.call cfg q t mode = some f := by
+    unfold nblast at h
+    cases hq : allSome (q.map fun n => selfHit tb.call cfg.useAlpha n.pts) with
+    | none => rw [hq] at h; cases h
+    | some qs =>
+      cases ht : allSome (t.map fun n => selfHit tb.call cfg.useAlpha n.pts) with
+      | none => rw [hq, ht] at h; cases h
+      | some ts =>
+        rw [← nblast_eq_def tb.call cfg q t mode qs ts hq ht]
+        unfold nblast; rw [hq, ht]; rw [hq, ht] at h; exact h
+  obtain ⟨qn, _, tn, _, sc, hsc, hv'⟩ := defNblast_entries tb.call cfg q t mode f hd row hrow v hv
+  have := normalised_le_one_modes tb htb cfg hua hn qn.pts tn.pts mode sc hsc
+  rcases hv' with rfl | rfl
+  · exact this.1
+  · exact this.2
+
+/-! ### With alpha the bound is false (DESIGN §6 #17) — proved part and counter-examples
+
+Full statement (NOT a theorem, refuted below):
+`theorem normalised_le_one_alpha (tb) (htb : Gen.Smat.fcwbAlpha = some tb) (cfg) (hua : cfg.useAlpha = true)
+   (hn : cfg.normalized = true) (q t : Cloud) (s) (h : defForward tb.call cfg q t = some s) : s ≤ 1`
+What is missing: the self hit of a query point looks the alpha table up at dot = `α_q`, and (a) a matched
+target point with a larger alpha puts `dot·sqrt(α_q α_t)` into a higher, better scoring dot bin,
+(b) even for lower-or-equal bins the self cell (row 0) is only maximal when its column is ≥ 7 (`α_q > 0.7`):
+e.g. row `(2.5,4]`, col 0 = 3.62 > row `(0,2.5]`, col 0 = 3.39.  The proved part needs exactly these two
+hypotheses; both counter-examples are reproduced on navis by the harness (`known_findings/C06.json`). -/
+
+/-- Table fact for `smat_alpha_fcwb.csv`: a self cell in column `j' ≥ 7` (row 0) dominates every cell of
+every row in columns `j ≤ j'`, and is positive. -/
+theorem fcwb_alpha_prefix_max :
+    (∀ i < 16, ∀ j < 10, ∀ j' < 10, j ≤ j' → 7 ≤ j' →
+      cellD Gen.Smat.fcwbAlphaCells i j ≤ cellD Gen.Smat.fcwbAlphaCells 0 j') ∧
+    (∀ j' < 10, 7 ≤ j' → 0 < cellD Gen.Smat.fcwbAlphaCells 0 j') := by
+  decide +kernel
+
+/-- The global maximum of the alpha table is again the cell (row 0, last column). -/
+theorem fcwb_alpha_max_cell :
+    ∀ row ∈ Gen.Smat.fcwbAlphaCells, ∀ c ∈ row, c ≤ cellD Gen.Smat.fcwbAlphaCells 0 9 := by
+  decide +kernel
+
+theorem fcwb_alpha_shape : Gen.Smat.fcwbAlphaRows.length = 16 ∧ Gen.Smat.fcwbAlphaCols.length = 10 ∧
+    Gen.Smat.fcwbAlpha.map (fun tb => digitize tb.ax0 (.sqrt 0)) = some 0 := by
+  decide +kernel
+
+/-- **normalised_le_one_alpha_partial.** With the default alpha table the normalised forward score is at
+most 1 *provided* every query point's self bin is ≥ 7 (`α_q > 0.7`) and its matched value
+`dot·sqrt(α_q α_t)` does not fall into a higher dot bin than its self value `α_q`. -/
+theorem normalised_le_one_alpha_partial (tb : Lookup2d) (htb : Gen.Smat.fcwbAlpha = some tb) (cfg : Cfg)
+    (hua : cfg.useAlpha = true) (hn : cfg.normalized = true) (q t : Cloud)
+    (hyp : ∀ p ∈ q, ∀ m, matchPoint t cfg.bound p = some m →
+      digitize tb.ax1 (matchArgs true m).2 ≤ digitize tb.ax1 (.sqrt (p.a * p.a)) ∧
+      (7 : Int) ≤ digitize tb.ax1 (.sqrt (p.a * p.a)))
+    (s : Rat) (h : defForward tb.call cfg q t = some s) : s ≤ 1 := by
+  obtain ⟨hc, h0, h1⟩ := fromDataframe_cells _ _ _ tb htb
+  have hshape := fromDataframe_shape _ _ _ tb htb
+  have hwf0 := (from_strings_wellformed _ _ h0).1
+  have hwf1 := (from_strings_wellformed _ _ h1).1
+  have hn0 : tb.ax0.nbins = 16 := by rw [(from_strings_wellformed _ _ h0).2.1]; exact fcwb_alpha_shape.1
+  have hn1 : tb.ax1.nbins = 10 := by rw [(from_strings_wellformed _ _ h1).2.1]; exact fcwb_alpha_shape.2.1
+  have hz : digitize tb.ax0 (.sqrt 0) = 0 := by
+    have := fcwb_alpha_shape.2.2; rw [htb] at this; simpa using this
+  apply defForward_le_one_alpha tb hwf0 hwf1 hshape 7 _ _ hz cfg hua hn q t hyp s h
+  · rw [hn0, hn1, hc]; exact fcwb_alpha_prefix_max.1
+  · rw [hn1, hc]; exact fcwb_alpha_prefix_max.2
+
+/-- The hypothesis on bins in terms of the numbers: it holds for a matched pair whenever
+`0 ≤ dot ≤ 1` and the alpha product does not exceed `α_q²` (i.e. `α_t ≤ α_q`). -/
+theorem alpha_bins_of_values (d : Digitizer) (m : Match) (a : Rat) (h0 : 0 ≤ m.dot) (h1 : m.dot ≤ 1)
+    (ha0 : 0 ≤ m.alpha) (ha : m.alpha ≤ a * a) :
+    digitize d (matchArgs true m).2 ≤ digitize d (.sqrt (a * a)) := by
+  simp only [matchArgs, if_true]
+  apply digitize_mono_sqrt
+  have : m.dot * m.dot ≤ 1 := by nlinarith
+  nlinarith
+
+def witnessLine (y a : Rat) : Cloud :=
+  [⟨⟨0, y, 0⟩, ⟨1, 0, 0⟩, a⟩, ⟨⟨1, y, 0⟩, ⟨1, 0, 0⟩, a⟩, ⟨⟨2, y, 0⟩, ⟨1, 0, 0⟩, a⟩, ⟨⟨3, y, 0⟩, ⟨1, 0, 0⟩, a⟩]
+
+def allAboveOne (r : Option Frame) : Bool :=
+  match r with
+  | some f => f.vals.all (fun row => row.all (fun v => decide (1 < v))) && !f.vals.isEmpty
+  | none => false
+
+/-- **Counter-example (a), DESIGN §6 #17.** Four collinear points, unit tangents, query alpha 3/8, target
+the same points 1/8 away with alpha 1: the normalised score with the default alpha table exceeds 1. -/
+theorem normalised_gt_one_alpha_witness :
+    allAboveOne (Gen.Smat.fcwbAlpha.bind fun tb =>
+      nblast tb.call ⟨true, true, none⟩ [⟨5, witnessLine 0 (3/8)⟩] [⟨9, witnessLine (1/8) 1⟩] .forward) = true := by
+  decide +kernel
+
+/-- **Counter-example (b).** Equal alphas 1/16 on both sides, target 3 away: still above 1, because the
+`(2.5,4]` row beats the self-match row in the lowest dot column. -/
+theorem normalised_gt_one_alpha_witness_equal_alpha :
+    allAboveOne (Gen.Smat.fcwbAlpha.bind fun tb =>
+      nblast tb.call ⟨true, true, none⟩ [⟨5, witnessLine 0 (1/16)⟩] [⟨9, witnessLine 3 (1/16)⟩] .forward) = true := by
+  decide +kernel
+
+/-! ## 5. Non-vacuity: concrete inputs satisfying the hypotheses -/
+
+def exIvs : List Interval := [⟨.fin 0, .fin (3/4), true⟩, ⟨.fin (3/4), .fin (3/2), true⟩, ⟨.fin (3/2), .fin 2, true⟩]
+
+/-- `from_strings` accepts abutting right-closed labels; a value *on* a boundary goes to the lower bin,
+a value beyond the table to the last bin. -/
+example : ∃ d, Digitizer.fromIntervals exIvs = some d ∧ digitize d (.x (.fin (3/4))) = 0 ∧
+    digitize d (.x (.fin 5)) = 2 ∧ digitize d (.sqrt (9/4)) = 1 ∧ binOK exIvs 0 (.fin (3/4)) = true ∧
+    binOK exIvs 1 (.fin (3/4)) = false := by
+  refine ⟨_, rfl, ?_⟩; decide +kernel
+
+/-- left-closed labels: the boundary value goes to the upper bin -/
+example : ∃ d, Digitizer.fromIntervals [⟨.fin 0, .fin 1, false⟩, ⟨.fin 1, .fin 2, false⟩] = some d ∧
+    digitize d (.x (.fin 1)) = 1 := ⟨_, rfl, by decide +kernel⟩
+
+/-- the hypotheses of `self_score_one` / `allbyall_eq_query_self` are satisfiable with the default table -/
+example : ((witnessLine 0 1).map (·.p)).Nodup ∧ (∀ p ∈ witnessLine 0 1, p.v.dot p.v = 1) ∧
+    (Gen.Smat.fcwb.bind fun tb => selfHit tb.call false (witnessLine 0 1)) = some (4 * fcwbSelfCell) ∧
+    (4 * fcwbSelfCell ≠ 0) := by
+  decide +kernel
+
+/-- … and the conclusion is what the model computes on that input (self score 1, off-diagonal < 1). -/
+example : (Gen.Smat.fcwb.bind fun tb => nblast tb.call ⟨false, true, none⟩
+      [⟨5, witnessLine 0 1⟩, ⟨9, witnessLine 3 1⟩] [⟨5, witnessLine 0 1⟩] .forward).map (·.vals.map (·.map (decide <| · = 1)))
+    = some [[true], [false]] := by
+  decide +kernel
+
+/-- the hypothesis of `normalised_le_one_alpha_partial` is satisfiable: alpha 1 on both sides -/
+example : (Gen.Smat.fcwbAlpha.bind fun tb => some ((witnessLine 0 1).all fun p =>
+      match matchPoint (witnessLine (1/8) 1) none p with
+      | some m => decide (digitize tb.ax1 (matchArgs true m).2 ≤ digitize tb.ax1 (.sqrt (p.a * p.a))) &&
+                  decide ((7 : Int) ≤ digitize tb.ax1 (.sqrt (p.a * p.a)))
+      | none => false)) = some true := by
+  decide +kernel
+
 end Navis.Props.C06
